@@ -341,7 +341,7 @@ func dumpToTree(n *sexp) (*c11Tree, bool) {
 		}
 		b := n.list[2]
 		switch b.list[0].atom {
-		case "field":
+		case "field", "roottype": // (a resource-type name after a dot is the root type when no root was seen before it)
 			return &c11Tree{kind: "member", name: b.list[1].atom, kids: []*c11Tree{recv}}, true
 		case "call":
 			t := &c11Tree{kind: "invoke", name: b.list[1].atom, kids: []*c11Tree{recv}}
@@ -379,7 +379,7 @@ func c11Gen(r *rng, depth int) *c11Tree {
 	case 7:
 		return &c11Tree{kind: "typeop", op: pick(r, []int{8, 9}), ty: pick(r, [][]string{{"Integer"}, {"FHIR", "string"}, {"System", "Boolean"}, {"Patient"}, {"HumanName"}, {"String"}}), kids: []*c11Tree{c11Gen(r, depth-1)}}
 	case 8, 9:
-		return &c11Tree{kind: "member", name: pick(r, []string{"name", "given", "family", "active", "id", "value"}), kids: []*c11Tree{c11Gen(r, depth-1)}}
+		return &c11Tree{kind: "member", name: pick(r, []string{"name", "given", "family", "active", "id", "value", "Patient", "Observation"}), kids: []*c11Tree{c11Gen(r, depth-1)}}
 	case 10, 11:
 		f := pick(r, []struct {
 			n string
